@@ -44,7 +44,10 @@ def case(draw, tier):
 
 @st.composite
 def _arg(draw, nmodes):
-    c = draw(st.integers(0, 3))
+    c = draw(st.integers(0, 4))
+    if c == 4:
+        return draw(st.sampled_from([S.F1(A.Param("a")), A.Flat([A.Operand("", A.Num("int", "2")), A.Operand("", A.Param("b"))], ["*"]),
+                                     A.Flat([A.Operand("", A.Param("a")), A.Operand("", A.Param("b"))], ["+"])]))
     if c == 0:
         return S.F1(A.Num("float", "0.5"))
     if c == 1:
@@ -103,24 +106,54 @@ def check(c):
     except Exception as e2:
         out.violations.append(Violation(exc_bucket("to_DiGraph", e2), "to_DiGraph raised %s: %s\n%s" % (type(e2).__name__, e2, text)))
         return out
-    v = out.violations
-    if sorted(G.nodes()) != list(range(n)):
-        v.append(Violation("graph|node-set", "nodes %r, expected 0..%d\n%s" % (sorted(G.nodes()), n - 1, text)))
+    verify(p, G, c["prio"], text, out.violations, "")
+    if out.violations:
         return out
+    if canon.snapshot(p) != before:
+        out.classes.append("program-changed-by-conversion")   # C13's business; counted only
+    # --- the graph is a function of the program as it is NOW (objects derived from a converted program)
+    import copy
+    try:
+        p2 = copy.deepcopy(p)
+        p2.operations.append({"op": "Extra", "modes": [0]})
+        verify(p2, to_DiGraph(p2), c["prio"][:1], text + "\n(+ operation 'Extra | 0' appended through the API to a deep copy, after the conversion above)",
+               out.violations, "after-modification|")
+        if not out.violations and p.is_template():
+            out.classes.append("template-then-instance")
+            inst = p(**{name: 0.3 + 0.1 * i for i, name in enumerate(sorted(p.parameters))})
+            verify(inst, to_DiGraph(inst), c["prio"][:1], text + "\n(instance of the template above, converted after the template was converted)",
+                   out.violations, "instance-after-template|")
+    except Exception as e3:
+        out.violations.append(Violation(exc_bucket("derived-program", e3), "%s: %s\n%s" % (type(e3).__name__, e3, text)))
+    return out
+
+
+def verify(p, G, prios, text, v, tag):
+    """Append violations of the C16 statement for program p and its graph G."""
+    ops = p.operations
+    D = [deps(o) for o in ops]
+    n = len(ops)
+
+    class _O:
+        pass
+    out = _O()
+    if sorted(G.nodes()) != list(range(n)):
+        v.append(Violation(tag + "graph|node-set", "nodes %r, expected 0..%d\n%s" % (sorted(G.nodes()), n - 1, text)))
+        return
     for i, o in enumerate(ops):
         at = G.nodes[i]
         want = {"name": o["op"], "args": o.get("args", []), "kwargs": o.get("kwargs", {}), "modes": tuple(o["modes"])}
         for k_, w in want.items():
             if k_ not in at or not _same(at[k_], w):
-                v.append(Violation("graph|node-attribute-" + k_, "node %d: %s=%r, operation has %r\n%s" % (i, k_, at.get(k_), w, text)))
-                return out
+                v.append(Violation(tag + "graph|node-attribute-" + k_, "node %d: %s=%r, operation has %r\n%s" % (i, k_, at.get(k_), w, text)))
+                return
     for a, b in G.edges():
         if not a < b:
-            v.append(Violation("graph|edge-direction", "edge (%d, %d) does not point forward\n%s" % (a, b, text)))
-            return out
+            v.append(Violation(tag + "graph|edge-direction", "edge (%d, %d) does not point forward\n%s" % (a, b, text)))
+            return
     if not nx.is_directed_acyclic_graph(G):
-        v.append(Violation("graph|cycle", "graph has a cycle\n%s" % text))
-        return out
+        v.append(Violation(tag + "graph|cycle", "graph has a cycle\n%s" % text))
+        return
     # own reachability relation
     reach = [set() for _ in range(n)]
     for i in range(n - 1, -1, -1):
@@ -132,13 +165,13 @@ def check(c):
         got = set(nx.descendants(G, i))
         if got != reach[i]:
             extra, missing = sorted(got - reach[i]), sorted(reach[i] - got)
-            v.append(Violation("graph|reachability|%s" % ("missing" if missing else "extra"),
+            v.append(Violation(tag + "graph|reachability|%s" % ("missing" if missing else "extra"),
                                "from operation %d: graph reaches %r, dependency chains reach %r (missing %r, extra %r)\n%s" % (
                                    i, sorted(got), sorted(reach[i]), missing, extra, text)))
-            return out
+            return
     # generated topological orders keep the order on every wire
     wires = sorted(set().union(*D)) if D else []
-    for prio in c["prio"]:
+    for prio in prios:
         rank = {node: r for r, node in enumerate(prio)}
         indeg = {i: G.in_degree(i) for i in range(n)}
         avail = [i for i in range(n) if indeg[i] == 0]
@@ -152,17 +185,15 @@ def check(c):
                 if indeg[y] == 0:
                     avail.append(y)
         if len(order) != n:
-            v.append(Violation("graph|topological-order-incomplete", "Kahn's algorithm visited %d of %d nodes\n%s" % (len(order), n, text)))
-            return out
+            v.append(Violation(tag + "graph|topological-order-incomplete", "Kahn's algorithm visited %d of %d nodes\n%s" % (len(order), n, text)))
+            return
         pos = {x: i for i, x in enumerate(order)}
         for q in wires:
             seq = [i for i in range(n) if q in D[i]]
             if sorted(seq, key=lambda x: pos[x]) != seq:
-                v.append(Violation("graph|wire-order", "topological order %r reorders wire %r (%r)\n%s" % (order, q, seq, text)))
-                return out
-    if canon.snapshot(p) != before:
-        out.classes.append("program-changed-by-conversion")   # C13's business; counted only
-    return out
+                v.append(Violation(tag + "graph|wire-order", "topological order %r reorders wire %r (%r)\n%s" % (order, q, seq, text)))
+                return
+    return
 
 
 def _same(a, b):
